@@ -32,6 +32,17 @@ Sub-products (all written out below; TIER selects the reduced or the full alphab
          statement must give the status row and leave the complete ground truth (catalog, data, fakesnow's side
          tables, every session of every instance) exactly as it was; the other one must do what it does without the
          option.  Every work item starts from freshly imported fakesnow modules (fresh_fakesnow)
+  FLOW   scripts in which a constant written in one statement is read back by a LATER statement of the same script:
+         SET v = <c>; SELECT $v  /  SET v = <c>; SET w = $v; SELECT $w  /  SET v = <c>; INSERT .. VALUES (3, $v);
+         SELECT  /  CREATE TABLE .. AS SELECT <c>; SELECT   x constants (string contents incl. an escaped backslash
+         followed by an escape letter / a quote / regex punctuation, backslash-escaped and doubled quotes, ; and --
+         inside; $$ contents; non-string constants: x'..', numbers, booleans, NULL, a cast) x styles x cursor class
+  NOPS   ordered pattern SETS of size 1..3 (quick: size 3 over S_CORE) over S_PATTERNS - regular expressions each of
+         which is legal for re.match on its own: anchors, a capturing group, a numbered backreference, named groups
+         (the same name in two patterns, a named backreference), inline flags at the start of a pattern ((?s), (?x)),
+         top-level alternation without parentheses, a pattern that matches nothing - x S_STMTS (for every pattern a
+         statement it matches and a near miss that must really run) executed in order on one instance x
+         {cursor.execute, execute_string}
   NOPH   pattern sets x cursor class x prior history of the cursor (new / query unfetched / partly / fully fetched /
          exhausted / failed statement / DML / a matching statement before) x target (matching statements with and
          without parameters, ordinary queries) x fetch mode (fetchall / fetchone until None / fetchmany(2) twice)
@@ -46,6 +57,9 @@ Clauses
                  a text whose statements all succeed one by one does not raise
   C16.literal    a string constant selected back / stored and selected back / used as a quoted column name arrives
                  with exactly the value the reference reader computes from the source text
+  C16.flow       a script whose statements are all legal does not raise, and a constant written in one statement and
+                 read back by a later statement of the script arrives with the value the reference reader computes from
+                 the source text (strings) / with the value and type `select <constant>` gives (other constants)
   C16.empty      a text without statements returns no cursor and does not raise
   C16.nop.match  a statement matching a pattern returns the single row ('Statement executed successfully.',) in a
                  column named status, raises nothing and leaves digest / session view unchanged
@@ -67,6 +81,13 @@ Classes (deterministic, from the input shape and from what one-by-one execution 
          failing one leave a net effect: net_effect(), a 10-line model of begin/commit/rollback);  else list:no-failure
   EMPTY  text=<token kinds present>
   NOPH   target=<match|other>,prior=<history id>
+  FLOW   flow=<script id>,<family>=<constant id>[,quote-in-inline-comment=..]
+  NOPS   path=<..>,set:matched-by=<feature kind of the first pattern of the set that matches>@<first|later> (position of
+         that pattern in the set; C16.nop.match);  path=<..>,set:unmatched,kinds=<feature kinds in the set> (statements
+         no pattern matches, incl. the fixture's; C16.nop.other);  path=<..>,set:final-state,kinds=<..>.  The oracle
+         for "matches" is Python's re.match(pattern, statement, re.IGNORECASE) for each pattern of the set on its own;
+         the statements no pattern matches are run on an instance without the option and must give the same results
+         and the same final state.  Only the first diverging statement of a set is a verdict.
   NOPP   history:after=<first statement kind>,change=<change id>        (clauses C16.nop.match / C16.nop.other)
   NOP    path=<execute|execute_string>,params=<yes|no>,patset=<id>,without-option=<ok|parse-error|error>
          (how the statement fares on an instance without the option)
@@ -79,6 +100,9 @@ Not demanded
   * correctness of the *direct* path: where `cursor.execute` itself misreads a literal, C16.literal is not raised
     against execute_string if it returns the same wrong value (noted in evidence as `direct_path_literal_deviation`);
     the equality clauses still apply (the statement demands equality with one-by-one execution);
+  * FLOW: where `select <constant>` as a single statement through cursor.execute already gives another value than
+    the reference reader (the engine's reading of the constant) and the script gives that same value, nothing is
+    raised (note direct_path_literal_deviation); hex / octal / unicode escapes are not in the alphabet;
   * `//` comments, nested block comments, unterminated constants/comments, `remove_comments=True`;
   * session-variable references inside literals ($name in a constant) — C15's subject;
   * the exact text fakesnow keeps for a session variable: `set v = 'a' /* c */ ;` keeps the re-emitted comment in
@@ -137,6 +161,12 @@ LITS = {
     "bs_only": BS + BS,
     "bs_quote": "q" + BS + "'q;",
     "bs_t": "tab" + BS + "t.",
+    # an escaped backslash followed by an escape letter / a quote / regex punctuation: the value holds a backslash
+    # that must not be read as the start of an escape when the value is written out and read a second time
+    "bs_bs_letters": "a" + BS + BS + "tb" + BS + BS + "nc" + BS + BS + "rd" + BS + BS + "0e",
+    "bs_bs_quote2": "it''s " + BS + BS + "'' end",
+    "bs_dquote": "say " + BS + '"hi' + BS + '"',
+    "bs_bs_semi_dash": "^" + BS + BS + "d+;" + BS + BS + "s*--x",
     "newline": "new" + NL + "line",
     "unicode": "❄ é 日本 \U0001f389",
     "percent": "100% %s",
@@ -226,6 +256,48 @@ LIT_SHAPES = {
     "thorough": [(lay, tail) for lay in ("oneline", "indented") for tail in ("alone", "sentinel")],
 }
 SENTINEL = "select 2"
+
+# ---- FLOW: a constant written in one statement of the script is read back by a LATER statement of the same script
+# (through a session variable, through a table).  id -> (statements with slot {LIT} = the whole constant, index of the
+# cursor whose first row's first column must be the constant's value, families)
+FLOWS = {
+    "set_select": (["set v = {LIT}", "select $v"], 1, ("sq", "dq", "const")),
+    "set_set_select": (["set v = {LIT}", "set w = $v", "select $w"], 2, ("sq", "dq", "const")),
+    "set_insert_select": (["set v = {LIT}", "insert into t values (3, $v)", "select v from t where k = 3"], 2, ("sq", "dq")),
+    "ctas_select": (["create table c3 as select {LIT} as v", "select v from c3"], 1, ("sq", "dq")),
+}
+# constants that are not strings (family const): their value is what `select <constant>` gives (value and type)
+CONSTS = {
+    "hex": "x'4142'",
+    "int": "42",
+    "decimal": "1.50",
+    "negative": "-0.5",
+    "float": "1e3",
+    "bool": "true",
+    "null": "null",
+    "cast_date": "'2020-01-02'::date",
+}
+FLOW_LITS_QUICK = {
+    "sq": LITS_QUICK + ["quote_semi_quote", "dashdash", "bs_only", "bs_t", "bs_bs_letters", "bs_bs_quote2", "bs_dquote", "bs_bs_semi_dash"],
+    "dq": DLITS_QUICK,
+    "const": list(CONSTS),
+}
+# (style, cursor class) of the scripts
+def flow_variants(tier):
+    if tier == "quick":
+        return [("semi_sp", "tuple"), ("bc_tricky", "dict"), ("indented_block", "tuple")]
+    return [(s, "tuple") for s in STYLES] + [(s, "dict") for s in STYLES_QUICK]
+
+
+def flow_literal(fam, lid):
+    """source text of the whole constant"""
+    if fam == "const":
+        return CONSTS[lid]
+    return ("'%s'" if fam == "sq" else "$$%s$$") % lit_source(fam, lid)
+
+
+def flow_statements(fid, fam, lid):
+    return [t.replace("{LIT}", flow_literal(fam, lid)) for t in FLOWS[fid][0]]
 
 # =====================================================================================================================
 # statement alphabet for lists
@@ -516,6 +588,55 @@ P_PATTERNS = [r"^CALL\b"]
 P_MATCH = "call refresh_all('a;b')"
 P_OTHER = "insert into s values (7, 'n')"  # resolvable or not, depending on the change: same with and without option
 
+# ---- NOPS: pattern SETS.  Every pattern is a regular expression that is legal for re.match on its own; a set is any
+# ordered selection of 1..3 distinct patterns.  id -> (kind of regex feature, pattern)
+S_PATTERNS = {
+    "anchor": ("anchor", r"^call\b"),
+    "anchor_dot": ("anchor", r"^select .* from nope$"),  # `.` does not cross a line break, `$` ends it
+    "group": ("group", r"^(grant|revoke) "),  # a capturing group
+    "backref": ("backref", r"^insert into (\w+) select \* from \1$"),  # group + numbered backreference
+    "named": ("named", r"^truncate (?P<obj>table )?t$"),  # a named group ...
+    "named2": ("named", r"^update (?P<obj>\w+) set v = (?P=obj)\.v$"),  # ... the same name, with a named backreference
+    "flag_s": ("flag", r"(?s)^select 1,.*2$"),  # inline flag at the start: `.` crosses line breaks in this pattern
+    "flag_x": ("flag", r"(?x) ^ commit \s* $"),  # inline flag at the start: blanks in this pattern are layout
+    "alt": ("alt", r"rollback|release"),  # alternation at top level, no parentheses
+    "never": ("never", r"(?!)"),  # matches nothing
+}
+S_CORE = ["group", "backref", "named", "named2", "flag_s", "alt"]  # quick tier: sets of 3 over these, of 1..2 over all
+# statements, executed in this order on one instance (the fixture's t and s)
+S_STMTS = [
+    "call x()",
+    "select 1 from nope",
+    "select 1\n from nope",
+    "grant select on t to role r",
+    "insert into t select * from t",
+    "INSERT INTO t SELECT * FROM T",
+    "insert into t select * from s",
+    "update t set v = t.v",
+    "select 1,\n 2",
+    "select 1,\n 3",
+    "commit",
+    "rollback",
+    "select 'rollback'",
+    "delete from t where k = 1",
+    "truncate table s",
+    "truncate table t",
+    "select count(*) from t",
+]
+
+
+def s_pattern_sets(tier):
+    ids = list(S_PATTERNS)
+    out = [c for n in (1, 2) for c in itertools.permutations(ids, n)]
+    out += list(itertools.permutations(ids if tier != "quick" else S_CORE, 3))
+    return out
+
+
+def s_matching(pset, sql):
+    """Reference: ids of the set's patterns that match the statement (Python's own re.match, case-insensitive, each
+    pattern on its own), in the order of the set."""
+    return [pid for pid in pset if re.match(S_PATTERNS[pid][1], sql, re.IGNORECASE)]
+
 # =====================================================================================================================
 # real side
 # =====================================================================================================================
@@ -675,6 +796,29 @@ def check_split(stmts, text):
     return pieces
 
 
+def same_value(a, b):
+    return type(a) is type(b) and a == b
+
+
+def compare_flow(es, idx, ref_value, direct):
+    """C16.flow for one script run through execute_string: the constant written in an earlier statement arrives in
+    cursor idx with the value ref_value.  direct = ('value', v) | ('raised', exc): what `select <constant>` gives as a
+    single statement through cursor.execute; where that already differs from the reference and the script gives the
+    same, it is the engine's reading of the constant and not the flow (not demanded, counted as a note)."""
+    if es["exc"] is not None:
+        if direct[0] == "raised":
+            return [("note", "direct_path_literal_deviation", {"expected": ref_value, "both": "raise"})]
+        return [("C16.flow", "raised", {"expected": ref_value, "execute_string": es["exc"]})]
+    if idx >= len(es["raw"]):
+        return []  # C16.count reports it
+    got = first_value(es["raw"][idx])
+    if same_value(got, ref_value):
+        return []
+    if direct[0] == "value" and not same_value(direct[1], ref_value) and same_value(got, direct[1]):
+        return [("note", "direct_path_literal_deviation", {"expected": ref_value, "both": got})]
+    return [("C16.flow", "value", {"expected": ref_value, "execute_string": got, "selected_directly": direct})]
+
+
 def compare(one, es, n_ref, rc, probe=None, ref_value=None):
     """-> list of (clause, reason, detail). one/es are run_side results."""
     out = []
@@ -772,7 +916,21 @@ def items(tier):
     for nid in P_NOPPERS_QUICK if tier == "quick" else P_NOPPERS:
         for cid in P_CHANGES_QUICK if tier == "quick" else P_CHANGES:
             out.append(("NOPP", nid, cid))
+    for fid, (_, _, fams) in FLOWS.items():
+        for fam in fams:
+            for lid in flow_lit_alphabet(fam, tier):
+                out.append(("FLOW", fid, fam, lid))
+    for pset in s_pattern_sets(tier):
+        out.append(("NOPS", "execute", pset))
+        if tier != "quick" or len(pset) <= 2:
+            out.append(("NOPS", "execute_string", pset))
     return out
+
+
+def flow_lit_alphabet(fam, tier):
+    if tier == "quick":
+        return FLOW_LITS_QUICK[fam]
+    return list({"sq": LITS, "dq": DLITS, "const": CONSTS}[fam])
 
 
 def variants(part, tier):
@@ -810,6 +968,10 @@ def work(item, acc: core.Acc, tier):
         return work_noph(item, acc, tier)
     if part == "EMPTY":
         return work_empty(item, acc, tier)
+    if part == "FLOW":
+        return work_flow(item, acc, tier)
+    if part == "NOPS":
+        return work_nops(item, acc, tier)
     probe = ref_value = None
     if part == "LIT":
         _, tid, lid, layout, tail = item
@@ -847,7 +1009,7 @@ def work(item, acc: core.Acc, tier):
 
 
 # ---- classifier -----------------------------------------------------------------------------------------------------
-CLAUSES = ["C16.failure", "C16.digest", "C16.count", "C16.result", "C16.literal"]
+CLAUSES = ["C16.failure", "C16.digest", "C16.count", "C16.result", "C16.literal", "C16.flow"]
 
 
 def first_failure(one):
@@ -885,6 +1047,8 @@ def class_key(clause, item, one, rc=True, text=None):
     messages.  What one-by-one execution did (index and kind of the first failing statement) is part of the shape."""
     idx, fkind = first_failure(one)
     part = item[0]
+    if clause == "C16.flow" and part != "FLOW":
+        return None
     if clause in ("C16.count", "C16.result", "C16.literal") and fkind != "none":
         return None  # cursors are not returned when a statement fails
     if clause == "C16.result" and not rc:
@@ -903,6 +1067,8 @@ def class_key(clause, item, one, rc=True, text=None):
         return f"tmpl={item[1]},lit={item[2]}{quote}"
     if part == "KIND":
         return f"kind={item[1]}{quote}"
+    if part == "FLOW":
+        return f"flow={item[1]},{item[2]}={item[3]}{quote}"
     if part != "LIST":
         raise AssertionError(item)
     seq = item[1]
@@ -939,6 +1105,182 @@ def report(acc, item, style, cls, rc, stmts, text, one, bad, tier):
                 {"part": "text", "item": list(item), "statements": stmts, "text": text, "cursor_class": cls,
                  "return_cursors": rc, "views": item[0] == "KIND", "tier": tier},
             )  # fmt: skip
+
+
+# ---- FLOW -----------------------------------------------------------------------------------------------------------
+def flow_reference(fam, lid):
+    """-> (reference value or _NOTSET, direct) ; direct = what `select <constant>` gives as one statement through
+    cursor.execute.  Strings: the value comes from the reference reader; other constants: from the direct selection."""
+    r = run_side("one", ["select " + flow_literal(fam, lid)], None)
+    direct = ("raised", r["exc"][:3]) if r["exc"] is not None else ("value", first_value(r["raw"][0]))
+    if fam == "const":
+        return (direct[1] if direct[0] == "value" else _NOTSET), direct
+    return lit_value(fam, lid), direct
+
+
+def flow_compare(item, one, es, n_ref, ref_value, direct):
+    bad = compare(one, es, n_ref, True)
+    if ref_value is not _NOTSET:
+        bad += compare_flow(es, FLOWS[item[1]][1], ref_value, direct)
+    return bad
+
+
+def work_flow(item, acc, tier):
+    _, fid, fam, lid = item
+    stmts = flow_statements(fid, fam, lid)
+    ref_value, direct = flow_reference(fam, lid)
+    acc.count("evaluations")
+    ones = {}
+    for style, cls in flow_variants(tier):
+        text = STYLES[style](stmts)
+        pieces = check_split(stmts, text)
+        if fam != "const":
+            assert pieces[0]["literals"] and pieces[0]["literals"][-1][1] == ref_value, (text, pieces[0])
+        if cls not in ones:
+            ones[cls] = run_side("one", stmts, None, cls=cls)
+            acc.count("evaluations")
+        one = ones[cls]
+        es = run_side("es", None, text, cls=cls)
+        acc.count("evaluations")
+        acc.count("texts")
+        acc.count("flow_scripts")
+        acc.obs((item, style, cls, es["curs"], es["exc"], core.h(es["state"]), core.h(one["state"]), repr(direct)))
+        acc.outcome((es["n"], es["exc"] and es["exc"][:3], [c[:60] for c in es["curs"]]))
+        acc.nontrivial((tuple(stmts), style, cls, True))
+        bad = flow_compare(item, one, es, len(pieces), ref_value, direct)
+        report(acc, item, style, cls, True, stmts, text, one, bad, tier)
+    acc.sample({"item": item, "statements": stmts, "reference_value": repr(ref_value), "selected_directly": repr(direct)})
+    return None
+
+
+# ---- NOPS -----------------------------------------------------------------------------------------------------------
+def run_statement_sequence(pats, stmts, path, cls="tuple"):
+    """fixture, then the statements one after the other on ONE instance (each through path, failures recorded and
+    passed over) -> {"fixture": [errors], "outcomes": [(exc, [cursor observations])], "state": final state}"""
+    import duckdb
+    import fakesnow.instance as inst
+
+    logging.disable(logging.WARNING)
+    fs = inst.FakeSnow() if pats is None else inst.FakeSnow(nop_regexes=pats)
+    try:
+        conn = fs.connect(database="db1", schema="s1")
+        fixture = []
+        for f in FIXTURE:
+            try:
+                conn.cursor().execute(f)
+            except Exception as e:  # noqa: BLE001
+                fixture.append((f,) + _exc(e)[:3])
+        outcomes = []
+        for sql in stmts:
+            try:
+                if path == "execute_string":
+                    curs = list(conn.execute_string(sql + ";", cursor_class=_cursor_class(cls)))
+                else:
+                    curs = [conn.cursor(_cursor_class(cls)).execute(sql)]
+                outcomes.append((None, [observe_cursor(c) for c in curs]))
+            except Exception as e:  # noqa: BLE001
+                outcomes.append((_exc(e)[:3], []))
+        post = take_state(fs, conn, False)
+        d = observe.engine_conn(conn)
+        d = getattr(d, "_r", d)
+        try:
+            own = repr(d.execute("select * from db1.s1.t order by all").fetchall())
+        except duckdb.Error as e:
+            own = "err:" + type(e).__name__
+        try:
+            d.execute("ROLLBACK")
+            tx = True
+        except duckdb.Error:
+            tx = False
+        return {"fixture": fixture, "outcomes": outcomes, "state": (repr(post), own, tx)}
+    finally:
+        try:
+            fs.duck_conn.close()
+        except Exception:  # noqa: BLE001
+            pass
+
+
+def status_problems(outcome):
+    """is the outcome of one statement the one-row success status?"""
+    exc, obs = outcome
+    if exc is not None:
+        return [("raised", exc)]
+    if len(obs) != 1:
+        return [("cursors", len(obs))]
+    rows = obs[0][0]
+    problems = []
+    if not (rows[0] == "rows" and len(rows[2]) == 1 and rows[2][0] in (STATUS_ROW, (("status", STATUS_ROW[0]),))):
+        problems.append(("rows", rows))
+    if first_name(obs[0]) != "status":
+        problems.append(("column", first_name(obs[0])))
+    return problems
+
+
+def nops_verdicts(pset, with_opt, without):
+    """-> [(clause, class suffix, failed, detail)] for one pattern set: `with_opt` ran all of S_STMTS on an instance
+    configured with the set, `without` ran the statements that no pattern of the set matches (reference: s_matching)
+    on an instance without the option.  After the first divergence the two instances are no longer in the same state,
+    so only the first one is a verdict (later statements are not evaluated)."""
+    kinds = "+".join(sorted({S_PATTERNS[p][0] for p in pset}))
+    out = []
+    if with_opt["fixture"]:
+        return [("C16.nop.other", f"set:unmatched,kinds={kinds}", True,
+                 {"what": "statements of the fixture (no pattern matches them) failed", "errors": with_opt["fixture"]})]  # fmt: skip
+    j = 0
+    any_match = False
+    for sql, got in zip(S_STMTS, with_opt["outcomes"]):
+        m = s_matching(pset, sql)
+        if m:
+            any_match = True
+            where = "first" if pset.index(m[0]) == 0 else "later"
+            cl = ("C16.nop.match", f"set:matched-by={S_PATTERNS[m[0]][0]}@{where}")
+            problems = status_problems(got)
+        else:
+            cl = ("C16.nop.other", f"set:unmatched,kinds={kinds}")
+            want = without["outcomes"][j]
+            j += 1
+            problems = [("differs from an instance without the option", {"with": got, "without": want})] if repr(got) != repr(want) else []
+        out.append(cl + (bool(problems), {"statement": sql, "matching_patterns": m, "problems": problems}))
+        if problems:
+            return out
+    differs = with_opt["state"] != without["state"]
+    out.append(
+        ("C16.nop.match" if any_match else "C16.nop.other", f"set:final-state,kinds={kinds}", differs,
+         {"what": "state after all statements differs from that of the unmatched statements alone on an instance without the option",
+          "with": _short_state(with_opt["state"]), "without": _short_state(without["state"])} if differs else {})
+    )  # fmt: skip
+    return out
+
+
+def work_nops(item, acc, tier):
+    _, path, pset = item
+    pset = tuple(pset)
+    pats = [S_PATTERNS[p][1] for p in pset]
+    for cls in ("tuple",) if tier == "quick" else ("tuple", "dict"):
+        with_opt = run_statement_sequence(pats, S_STMTS, path, cls)
+        without = run_statement_sequence(None, [s for s in S_STMTS if not s_matching(pset, s)], path, cls)
+        if without["fixture"]:
+            raise core.HarnessError(f"fixture fails without the option: {without['fixture']}")
+        acc.count("evaluations", 2)
+        acc.count("pattern_set_runs")
+        acc.count("pattern_set_statements", len(S_STMTS))
+        acc.obs((item, cls, repr(with_opt["outcomes"]), with_opt["fixture"], core.h(with_opt["state"]), core.h(without["state"])))
+        acc.outcome(("nops", core.h(repr(with_opt["outcomes"]))))
+        for sql in S_STMTS:
+            if s_matching(pset, sql):
+                acc.nontrivial(("nops", pset, sql, path, cls))
+        for clause, k, failed, detail in nops_verdicts(pset, with_opt, without):
+            k = f"path={path},{k}"
+            acc.member(clause, k, failed)
+            if failed:
+                acc.violation(
+                    clause,
+                    k,
+                    dict(detail, patterns=pats, path=path, cursor_class=cls),
+                    {"part": "nops", "path": path, "pset": list(pset), "tier": tier},
+                )
+    acc.sample({"item": item, "patterns": pats, "matching": {s: s_matching(pset, s) for s in S_STMTS if s_matching(pset, s)}})
+    return None
 
 
 # ---- EMPTY ----------------------------------------------------------------------------------------------------------
@@ -1337,7 +1679,12 @@ def run(ctx: core.Ctx):
         "NOP = pattern sets x statements x {execute, execute_string} x cursor class, with-option vs without-option "
         "instances; NOPP = statement kinds answered by fakesnow's internal success statement x changes of what they "
         "referred to (comment set another way, drop, rename, USE SCHEMA, second connection, second instance) x "
-        "{matching, other} statement x {execute, execute_string}; NOPH = pattern sets x cursor class x prior cursor histories x targets x fetch modes, used cursor "
+        "{matching, other} statement x {execute, execute_string}; FLOW = scripts in which a constant written in one "
+        "statement is read back by a later one (SET -> $v, SET -> SET -> $w, SET -> INSERT -> SELECT, CTAS -> SELECT) x "
+        "constants (string contents, $$ contents, non-string constants) x styles x cursor class, against one-by-one "
+        "execution and the reference value of the constant; NOPS = ordered pattern sets of size 1..3 over S_PATTERNS "
+        "(quick: size 3 over S_CORE) x S_STMTS run in order on one instance x {execute, execute_string}, against an "
+        "instance without the option that runs the statements no pattern matches (Python's re.match per pattern); NOPH = pattern sets x cursor class x prior cursor histories x targets x fetch modes, used cursor "
         "vs new cursor; non-trivial = text whose one-by-one execution changes state, fails, or has > 1 statement, and "
         "nop cases the reference says match"
     )
@@ -1364,6 +1711,12 @@ def run(ctx: core.Ctx):
         "process_history_first": P_NOPPERS_QUICK if ctx.quick else list(P_NOPPERS),
         "process_history_changes": P_CHANGES_QUICK if ctx.quick else list(P_CHANGES),
         "layouts": sorted({x[0] for x in LIT_SHAPES[ctx.tier]}),
+        "flows": list(FLOWS),
+        "flow_literals": {f: flow_lit_alphabet(f, ctx.tier) for f in ("sq", "dq", "const")},
+        "flow_variants": [list(v) for v in flow_variants(ctx.tier)],
+        "set_patterns": {k: v[1] for k, v in S_PATTERNS.items()},
+        "pattern_sets": len(s_pattern_sets(ctx.tier)),
+        "set_statements": S_STMTS,
     }
     ctx.extra["items"] = len(its)
     ctx.pmap(work, its)
@@ -1390,7 +1743,12 @@ def replay(payload):
         print("reference split:", [p["code"] for p in pieces])
         print("one by one   :", one["n"], "cursors", one["curs"], "exc", one["exc"], "tx_open", one["state"][2], "T", one["state"][1])  # fmt: skip
         print("execute_string:", es["n"], "cursors", es["curs"], "exc", es["exc"], "tx_open", es["state"][2], "T", es["state"][1])  # fmt: skip
-        bad = compare(one, es, len(pieces), rc, probe, ref_value)
+        if item[0] == "FLOW":
+            ref_value, direct = flow_reference(item[2], item[3])
+            print("reference value:", repr(ref_value), "selected directly:", repr(direct))
+            bad = flow_compare(item, one, es, len(pieces), ref_value, direct)
+        else:
+            bad = compare(one, es, len(pieces), rc, probe, ref_value)
         report(acc, item, "-", cls, rc, stmts, text, one, bad, r.get("tier", "quick"))
         for b in bad:
             print("verdict:", json.dumps(core.jsonable(b))[:1200])
@@ -1404,6 +1762,9 @@ def replay(payload):
         work_noph(("NOPH", r["patset"], r["cursor_class"]), acc, r.get("tier", "thorough"))
     elif r["part"] == "nop":
         work_nop(("NOP", r["patset"], r["stmt"]), acc, "thorough")
+    elif r["part"] == "nops":
+        fresh_fakesnow()
+        work_nops(("NOPS", r["path"], tuple(r["pset"])), acc, r.get("tier", "thorough"))
     else:
         raise core.HarnessError(f"unknown replay part {r['part']}")
     want = (payload["clause"], payload["class"])
